@@ -3,11 +3,73 @@ from vq.meta import _m
 _m(
     "C02",
     "exploration",
-    "placeholder",
-    ["placeholder"],
+    "Hypothesis draws one tiny 4D-STEM experiment per case: detector ROI (R, C) in [6..16]^2 (odd and even sizes, "
+    "non-square in ~5/6 of the cases), raster grid (g0, g1) in [2..6]^2, object pixel size 0.15-0.8 A per axis (reciprocal "
+    "sampling = 1/(ROI x pixel size)), scan step 1.05-6 object pixels per axis (4 decimals, i.e. fractional pixel positions; "
+    "steps that would put a scan point within 0.01 px of a half-integer are nudged), energy 60/80/200/300 keV, slices S in "
+    "1..4 with S-1 independent thicknesses 2-40 A, probe modes M in 1..3, object type complex | pure_phase | potential, "
+    "requested obj_padding_px 0..6 per axis, loss l1|l2 x amplitude|intensity, batch size 1..J (at most 12 batches, ragged "
+    "partitions included), descan handling A (com_fit_function='no_shift', no dataset optimiser) | B (dataset optimiser + "
+    "constraint descan_shifts_constant, com_fit constant or plane).  The library itself (public preprocess on an all-ones "
+    "dataset of that geometry) supplies the object shape and the pixel position of the first scan point; the harness then "
+    "builds a periodic unit-amplitude object of that shape (random phases of range 0.8-3.1 rad, white or 3x3-smoothed; "
+    "potentials V in [0.01, strength]), M probe modes (soft aperture of radius 1.6..min(R,C)/2-0.5 detector pixels, defocus "
+    "and astigmatism phases up to 6 / 2 rad at the aperture edge, higher modes with extra tilt/defocus/amplitude structure, "
+    "Gram-Schmidt orthogonalised in float64, relative weights 1 : 0.15-0.6 : 0.02-0.12, total intensity 1e2-1e7 per "
+    "pattern), simulates the data on the raster first_position + (i, j) * step with vq/refs/c02_ptycho_sim.py, and feeds "
+    "float32 intensities to Dataset4dstem -> PtychographyDatasetRaster.preprocess -> Ptychography.from_models/preprocess "
+    "(ObjectPixelated.from_array(truth), probe through the public probe setter).  Perturbations: object phase noise sigma "
+    "0.15-0.6 rad (|noise| added to potentials), probe extra defocus +-1.5-4 rad at the aperture edge.  A case is "
+    "NON-TRIVIAL when S >= 2 or M >= 2 or the ROI is non-square or (some scan position is fractional and the effective "
+    "padding is > 0 on both axes); cases skipped because a scan point sits on a half-integer pixel (rounding convention) or "
+    "because they have the shape of an open known finding are recorded as trivial.  distinct = SHA-1 of the canonical JSON "
+    "of the whole case (shapes, S, M, type, loss, batch, descan, seed and every drawn parameter).",
+    [
+        "oracle: numpy float64 simulator written from the physics, sharing no code with quantem: per-position loop, periodic "
+        "object window round(p) + DFT-ordered offsets, Fourier-shift of the origin-centred probe by p - round(p), "
+        "transmission exp(iV) for potentials, Fresnel propagator exp(-i pi lambda dz k^2) with the relativistic wavelength, "
+        "unitary DFT, incoherent mode sum, zero frequency at detector pixel (R//2, C//2)",
+        "the scan origin in pixels (position of the first scan point = padding) is taken from the library, because it is a "
+        "gauge (a common translation of object and scan); the raster relative to it (row-major order, step / pixel size) is "
+        "computed by the harness; com rotation is forced to 0 and transpose to False (rotated scans are outside the claim)",
+        "descan readings asserted: A and B exactly as in DESIGN.md; com_fit_function='constant' without the "
+        "descan_shifts_constant constraint is not asserted (the fitted-origin residual makes the truth a non-zero of the loss "
+        "by construction of the preprocessing)",
+        "truth tolerance on the full-scan-scaled loss, J = number of patterns, N = detector pixels, I = mean pattern "
+        "intensity: l2_amplitude J*(4e-11 + 2*N*1e-9/I); l1_amplitude J*(2e-5*sqrt(N/I) + 2*N*sqrt(1e-9)/I); l2_intensity "
+        "J*4e-12*I*(peak/mean pixel ratio); l1_intensity J*1e-4.  The N*1e-9 and N*sqrt(1e-9) terms are exact bounds (x2) for "
+        "the documented sqrt(I + 1e-9) regulariser; the others are float32 round-off scalings with >= 25x head-room over the "
+        "largest value seen in ~4000 clean-tree cases (ratios measured/tolerance: l2_amplitude 0.006, l2_intensity 0.005, "
+        "l1_amplitude 0.04, l1_intensity 0.03); every batch of the drawn partition must meet the same bound",
+        "perturbed points: the library loss must equal the loss *definition* (sum over the batch and detector of "
+        "|sqrt(pred+1e-9) - sqrt(meas)|^p or |pred - meas|^p, divided by the batch fraction B/J and by the mean pattern "
+        "intensity, as documented in error_estimate) evaluated on the reference simulator's prediction to 2e-4 relative "
+        "(clean tree <= 2e-6), must exceed 100 x the truth loss and truth loss + 100 x tolerance; asserted only when the "
+        "reference loss exceeds 1000 x tolerance (otherwise the drawn perturbation is invisible in exact arithmetic and the "
+        "sub-check is counted as 'not visible', ~2 % of the cases); batch-fraction weighted sum of batch losses == full-scan "
+        "loss to 1e-4 relative (clean tree 3e-7)",
+        "stationarity (l2 losses): autograd gradient norm w.r.t. the object parameters at the truth <= 1e-3 x the norm at the "
+        "perturbed object, same for the probe parameters and the perturbed probe (clean tree <= 3e-5); l1 losses are not "
+        "differentiable at a zero residual and are not asserted",
+        "mean pattern intensities are >= 100 so that the 1e-9 regulariser stays far below a pixel's amplitude; absorbing "
+        "objects, tilted probes, learned descan, rotated/transposed scans, detector masks, the poisson loss and "
+        "padded_diffraction_intensities_shape are outside the claim",
+        "scan points whose pixel position is within 2e-3 of a half-integer are not judged (which neighbour round() picks is a "
+        "convention; the generator avoids them)",
+    ],
     workers=(4, 16),
-    technique="property-based testing (Hypothesis) with an independent float64 numpy multislice / mixed-state simulator as oracle",
-    text="placeholder",
-    note="placeholder",
+    technique="property-based testing (Hypothesis) with a differential oracle: an independent float64 numpy multislice / "
+    "mixed-state ptychography simulator written from the physics; zero-loss, loss-definition, batch-scaling and autograd "
+    "stationarity assertions on the public forward chain",
+    text="Generated-input search: every case simulates a small experiment with the reference simulator, lets the library "
+    "preprocess the data, installs the ground truth and evaluates the statements of Ptychography.reconstruct's inner loop. "
+    "Judged: loss(truth) <= tolerance for the whole scan and every batch; loss at a perturbed object/probe == its "
+    "definition on the reference prediction and >> loss(truth); weighted batch losses == full-scan loss; autograd gradient at "
+    "the truth <= 1e-3 of the gradient at the perturbed point.  The worst observed ratios are reported under "
+    "coverage.extra.  Exploration only: no absence claim.",
+    note="The reference simulator embodies the same paraxial, periodic-window, band-limited model as the library (that is the "
+    "property); it cannot say whether that model is an adequate description of an experiment.  The absolute scan origin, "
+    "rotated/transposed scans and the clip_scan_positions=False path (crashes on the examined tree, outside the claim) are "
+    "not exercised.",
     design="DESIGN.md §3 C02",
 )
